@@ -159,14 +159,7 @@ def Config.has (cfg : Config) (q : Nat) : Bool := cfg.quirks.contains q
 /-- `nm` is not an address: it never occurs in an interface table or as a mux listen address -/
 def realAddrs (cfg : Config) (ifs : List Iface) : Bool :=
   (ifs.all fun i => i.addrs.all (fun a => a.cls != .nm)) && ((cfg.udpMux.getD []).all (fun a => a.cls != .nm))
-
-/-- the external addresses of a pinned srflx rule are, by class, external or link-local addresses (the
-code publishes whatever literal address the rule names: a site-local or IPv4-compatible external is
-published as it is — finding candidate C18-G7, notes/C18.md) -/
-def pinnedExtOk (cfg : Config) : Bool :=
-  match cfg.srflxPinned with
-  | none => true
-  | some (_, exts) => exts.all fun e => e.cls == .x4 || e.cls == .x6 || e.cls == .k6
+  && (((cfg.srflxPinned.map (·.2)).getD []).all (fun a => a.cls != .nm))
 
 def allNetTypes : List NetType := [.udp4, .udp6, .tcp4, .tcp6]
 
@@ -411,6 +404,8 @@ def publishable (cfg : Config) (d : CandD) : Bool :=
   && (d.ty == .host || !d.addr.cls.isLinkLocal6)
   -- a server reflexive candidate of a disabled network type is turned away (`netType` step, C18-G6 fix)
   && (d.ty != .srflx || (configured cfg.netTypes).contains d.net)
+  -- … and one on an excluded IPv6 address too (`supported6` step, C18-G7 fix)
+  && (d.ty != .srflx || !d.addr.cls.is6 || d.addr.cls.supported6)
 
 /-! ## 3. The gathering-cycle state machine
 
@@ -556,6 +551,7 @@ inductive Lbl where
   | allocate     -- client.Allocate
   | filter       -- shouldFilterLocationTracked on a mapped / relayed address
   | addrs        -- resolveSrflxAddresses / resolveRelayAddresses
+  | supported6   -- isSupportedIPv6Partial on an IPv6 mapped address (C18-G7 fix)
   | netType      -- networkTypeEnabled(networkTypes, c.NetworkType()) on a mapped address (C18-G6 fix)
   deriving DecidableEq, Repr, Inhabited
 
@@ -702,9 +698,11 @@ def mappedLoop : (i k : Nat) → Prog
   | i, k + 1 =>
     let body : Prog :=
       .step .filter
-        (.step .newCand
-          (.step .netType
-            (.addCand i [i] (mappedLoop (i + 1) k) (.release i (mappedLoop (i + 1) k)))
+        (.step .supported6
+          (.step .newCand
+            (.step .netType
+              (.addCand i [i] (mappedLoop (i + 1) k) (.release i (mappedLoop (i + 1) k)))
+              (.release i (mappedLoop (i + 1) k)))
             (.release i (mappedLoop (i + 1) k)))
           (.release i (mappedLoop (i + 1) k)))
         (.release i (mappedLoop (i + 1) k))
@@ -877,6 +875,14 @@ def stepAns (s : MState) (j : Job) (l : Lbl) : Option Bool :=
     match j.unit.kind with
     | .srflxMapped =>
       some !((((srflxMappedAddrs s.cfg j.unit.bind).getD [])[j.slots.length - 1]?).map (·.cls.isLinkLocal6)).getD false
+    | _ => some true
+  | .supported6 =>
+    -- RFC 8445 §5.1.1.1 exclusions on an IPv6 mapped address: site-local, IPv4-compatible / `::/96`
+    -- (C18-G7 fix); the address in turn is the one of the newest slot
+    match j.unit.kind with
+    | .srflxMapped =>
+      some (((((srflxMappedAddrs s.cfg j.unit.bind).getD [])[j.slots.length - 1]?).map
+        (fun a => !a.cls.is6 || a.cls.supported6)).getD true)
     | _ => some true
   | .netType =>
     -- the candidate's network type follows the family of the mapped address; a disabled one releases the
